@@ -317,8 +317,13 @@ class G:
                 parts = [chs[:1], chs[1:]]
             else:
                 parts = [chs]
-            return {'k': 'multi', 'ms': self.decls(idxs),
-                    'subs': [self.atomic(p, idxs, dur, d - 1, False, func_ok and len(parts) == 1) for p in parts]}
+            t = {'k': 'multi', 'ms': self.decls(idxs),
+                 'subs': [self.atomic(p, idxs, dur, d - 1, False, func_ok and len(parts) == 1) for p in parts]}
+            if len(parts) > 1 and self.rng.random() < 0.35:
+                t['via'] = 'wpa'            # built as first.with_parallel_atomic(rest) (round 4: the other construction path)
+                if self.rng.random() < 0.5:
+                    t['wrap1'] = True
+            return t
         if r < 0.85:
             sub = list(chs) if self.rng.random() < 0.6 else list(chs)[:1]
             same = sorted(sub) == sorted(chs)
@@ -720,7 +725,8 @@ def build_pt(t, singles, share=False):
             if t.get('via') == 'wpa' and len(subs) >= 2 and not kw:
                 # the other construction path: first part (with the composite's declarations) .with_parallel_atomic(rest)
                 first = AtomicMultiChannelPT(subs[0], measurements=ms_of(t)) if t['ms'] or t.get('wrap1') else subs[0]
-                return first.with_parallel_atomic(*subs[1:])
+                if hasattr(first, 'with_parallel_atomic'):      # AtomicPulseTemplate only (not MappingPT / wrappers)
+                    return first.with_parallel_atomic(*subs[1:])
             return AtomicMultiChannelPT(*subs, measurements=ms_of(t), **kw)
         if k == 'arith':
             return ArithmeticAtomicPulseTemplate(go(t['l']), t['op'], go(t['r']), measurements=ms_of(t), **kw)
